@@ -659,7 +659,7 @@ fn prop_sweep(c: &SweepCase, ctx: &Ctx) -> PResult {
 pub fn property() -> Property {
     Property {
         id: "C06",
-        rule: "Models built by the harness's MDL encoder: version 5 | 6 (bone tables and bone-map size field per version), 1..3 LODs x 1..3 meshes, per mesh a declaration of 1..8 elements with unique usages drawn from the 17 (usage, type) pairs the reader supports, spread over 1..3 streams with gaps between elements, tail gaps in the stride and gaps between streams / sections; 0..40 vertices of random bytes (so NaN/inf/subnormal half patterns and all byte values occur), 0..120 indices, 1..3 contiguous sub-meshes; material / bone / attribute / extra names in the string table; 0..3 shapes with shape meshes and values; element ids, bone map, padding, bounding boxes. Every fifth mesh with a four-component UV element also declares a two-component UV element with usage index 1 behind it (its own first pair is then not asserted, the second pair of the first element still is). Sweep part: dedicated models carrying all 65 536 half patterns in each Half4/Half2 role and all 256 byte values in each normalised-byte role (both versions), plus two size boundaries: a mesh that starts 66 000 indices into its LOD's index buffer, and a mesh of 65 535 vertices. Oracle: independent decode of the generated stream bytes (own half decoder, b/255, b*2/255-1 with the w sign rule, uv0/uv1 split, defaults for absent attributes); floats by bit pattern (NaN=NaN), normalised bytes within 1e-6; indices, sub-mesh (count, offset), raw vertex streams, strides, material index, material and bone names, names of the shapes affecting each mesh. Non-trivial: a mesh with >= 2 streams or >= 4 elements and >= 1 vertex; distinct by hash of the file.",
+        rule: "[round 9: every fourth model with >= 2 LODs has 1..3 meshes of no LOD's main range behind LOD 0's meshes] Models built by the harness's MDL encoder: version 5 | 6 (bone tables and bone-map size field per version), 1..3 LODs x 1..3 meshes, per mesh a declaration of 1..8 elements with unique usages drawn from the 17 (usage, type) pairs the reader supports, spread over 1..3 streams with gaps between elements, tail gaps in the stride and gaps between streams / sections; 0..40 vertices of random bytes (so NaN/inf/subnormal half patterns and all byte values occur), 0..120 indices, 1..3 contiguous sub-meshes; material / bone / attribute / extra names in the string table; 0..3 shapes with shape meshes and values; element ids, bone map, padding, bounding boxes. Every fifth mesh with a four-component UV element also declares a two-component UV element with usage index 1 behind it (its own first pair is then not asserted, the second pair of the first element still is). Sweep part: dedicated models carrying all 65 536 half patterns in each Half4/Half2 role and all 256 byte values in each normalised-byte role (both versions), plus two size boundaries: a mesh that starts 66 000 indices into its LOD's index buffer, and a mesh of 65 535 vertices. Oracle: independent decode of the generated stream bytes (own half decoder, b/255, b*2/255-1 with the w sign rule, uv0/uv1 split, defaults for absent attributes); floats by bit pattern (NaN=NaN), normalised bytes within 1e-6; indices, sub-mesh (count, offset), raw vertex streams, strides, material index, material and bone names, names of the shapes affecting each mesh. Non-trivial: a mesh with >= 2 streams or >= 4 elements and >= 1 vertex; distinct by hash of the file.",
         assumptions: &["values of (BlendWeights, Byte4|UShort4) and (BlendIndices, UShort4) and morph deltas are not compared (reader marks them provisional)", "shape values are only attached to meshes whose start index is 0 (the reader indexes the mesh-local index list with the LOD-relative base index)", "flags1/flags2 bytes carry a single bit (the reader models them as enums)"],
         pre: None,
         post: None,
